@@ -90,13 +90,15 @@ def opV1b (x : B) : Outcome String := do
 def opV1s (x : B) : String :=
   if !Utf8.valid x then "notutf8" else
   let a := outcomeStr (do let r ← V1.parseStrP x; v1StrResult r)
+  -- `FromStr` delegates to `try_from(&str)`, so it panics exactly when that does; its value is
+  -- computed by the model's own `fromStrHeader` / `fromStrAddresses`
   let b := outcomeStr (do
-    let r ← V1.parseStrP x
-    v1StrResult (match r with | .ok h => .ok h.toOwned | .error e => .error e))
+    let _ ← V1.parseStrP x
+    v1StrResult (V1.fromStrHeader x))
   let c := outcomeStr (do
-    let r ← V1.parseStrP x
-    pure (match r with
-      | .ok h => s!"ok addr={v1Addr h.addresses}"
+    let _ ← V1.parseStrP x
+    pure (match V1.fromStrAddresses x with
+      | .ok a => s!"ok addr={v1Addr a}"
       | .error e => s!"err {v1Err e}"))
   s!"{a} | {b} | {c}"
 
